@@ -114,7 +114,10 @@ func (e *escaper) escape(c context, n parse.Node) context {
 	case *parse.WithNode:
 		return e.escapeBranch(c, &n.BranchNode, "with")
 	}
-	panic("escaping " + n.String() + " is unimplemented")
+	return context{
+		state: stateError,
+		err:   errorf(ErrEscapeAction, n, 0, "escaping %s is unimplemented", n),
+	}
 }
 
 // escapeAction escapes an action template node.
